@@ -280,19 +280,34 @@ Section HARO.
     let x' := fold_left (fun acc r => fold_left (hrefresh_one nw (fst r)) (snd r) acc) view x in
     (fst x', mkHaro (t_tbl (snd x')) (t_pm (snd x')) nw (t_bad (snd x'))).
 
-  Inductive hop := HAdd (pfx arg : N) | HRemove (pfx arg : N) | HReplace (nw : P) (view : list (N * list N)).
+  (* HSend / HWithdraw / HFlush: the Adj-RIB-Out's client, the UpdateSender (protocols/bgp/server/update_sender.go),
+     the last consumer on the export side. AddPath hashes the path (ComputeHashWithPathID) and keeps the POINTER
+     in toSend; RemovePath reads the path id; the sender loop (_getUpdateInformation, PathAttributes, Serialize)
+     reads the object when it packs the UPDATE. None of them assigns to the object, its block or - this is what
+     the sharing structure of Path.Copy demands - to the AS path segments' ASN arrays: Path.Copy copies the segment
+     structs only, so those arrays are shared by the Loc-RIB's object, its copies in every Adj-RIB-Out and whatever
+     a filter chain hands on (BGPPath.Prepend builds a new array instead of writing to the old one). In this model
+     an AS path is a value inside the path object, so a write to a shared ASN array IS a write to every object
+     sharing it; the sender steps are the identity on the store. *)
+  Inductive hop :=
+  | HAdd (pfx arg : N) | HRemove (pfx arg : N) | HReplace (nw : P) (view : list (N * list N))
+  | HSend (pfx arg : N) | HWithdraw (pfx arg : N) | HFlush.
 
   Definition hstep (x : st) (o : hop) : st :=
     match o with
     | HAdd pfx arg => hadd x pfx arg
     | HRemove pfx arg => hremove x pfx arg
     | HReplace nw view => hreplace x nw view
+    | HSend _ _ | HWithdraw _ _ | HFlush => x
     end.
 End HARO.
 
 Arguments HAdd {P}.
 Arguments HRemove {P}.
 Arguments HReplace {P}.
+Arguments HSend {P}.
+Arguments HWithdraw {P}.
+Arguments HFlush {P}.
 
 (* the environment puts a new path object into the store (the Loc-RIB / an Adj-RIB-In got a route);
    shared = it was deduplicated, as the tables on the import side do *)
